@@ -162,28 +162,32 @@ structure AttemptResult where
   reason : FinReason
   deriving Repr
 
-/-- `Executor::run_scenario` up to (not including) the retry decision. -/
+def st0 : ASt := { world := none, evs := [.started], calls := [] }
+
+/-- before hook, then (if it did not fail) the steps -/
+def runBody (sp : AttemptSpec) (wid : Nat) : ASt × Stop :=
+  match (runBefore sp wid st0).2 with
+  | .none => runSteps sp wid (stepList sp) (runBefore sp wid st0).1
+  | s => ((runBefore sp wid st0).1, s)
+
+def afterEvents (sp : AttemptSpec) : List ScenEv :=
+  if sp.hasAfter then
+    [.hook .after .started,
+     match sp.after with
+     | .pass => .hook .after .passed
+     | .panic p => .hook .after (.failed p)]
+  else []
+
+def afterFailed (sp : AttemptSpec) : Bool := sp.hasAfter && (sp.after != .pass)
+
+/-- `Executor::run_scenario` up to (not including) the retry decision: the after hook runs first
+    (no events yet), then the deferred failure is emitted, then the hook events, then Finished. -/
 def runAttempt (sp : AttemptSpec) (wid : Nat) : AttemptResult :=
-  let st0 : ASt := { world := none, evs := [.started], calls := [] }
-  let (st1, stop1) := runBefore sp wid st0
-  let (st2, stop) :=
-    match stop1 with
-    | .none => runSteps sp wid (stepList sp) st1
-    | s => (st1, s)
-  -- after hook runs first (no events yet), then the deferred failure is emitted, then the hook events
-  let afterFailed := sp.hasAfter && (sp.after != .pass)
-  let calls := if sp.hasAfter then st2.calls ++ [Call.after (reasonOf stop) st2.world] else st2.calls
-  let afterEvs : List ScenEv :=
-    if sp.hasAfter then
-      [.hook .after .started,
-       match sp.after with
-       | .pass => .hook .after .passed
-       | .panic p => .hook .after (.failed p)]
-    else []
-  { events := st2.evs ++ stop.deferred ++ afterEvs ++ [.finished]
-    calls := calls
-    failed := stop.isFailure || afterFailed
-    reason := reasonOf stop }
+  { events := (runBody sp wid).1.evs ++ (runBody sp wid).2.deferred ++ afterEvents sp ++ [.finished]
+    calls := if sp.hasAfter then (runBody sp wid).1.calls ++ [Call.after (reasonOf (runBody sp wid).2) (runBody sp wid).1.world]
+             else (runBody sp wid).1.calls
+    failed := (runBody sp wid).2.isFailure || afterFailed sp
+    reason := reasonOf (runBody sp wid).2 }
 
 /-- `retries.filter(|_| is_failed).and_then(RetryOptions::next_try)` -/
 def nextTry (ret : Option RetryOptions) (failed : Bool) : Option RetryOptions :=
